@@ -56,6 +56,9 @@ func (c *regexpSimplifyChecker) VisitExpr(x ast.Expr) {
 	if !ok {
 		return
 	}
+	if len(call.Args) == 0 {
+		return // Can't be a regexp package call; probably a namesake
+	}
 
 	switch qualifiedName(call.Fun) {
 	case "regexp.Compile", "regexp.MustCompile":
